@@ -614,6 +614,8 @@ def gate_cases(draw):
         ]))
     else:
         g = draw(specs.gate_for(radixes))
+        if g.get('a') and 'kwmode' not in g:
+            g = dict(g, kwmode=draw(st.sampled_from([0, 0, 1, 2])))
     return {'k': 'gate', 'gate': g, 'p': draw(specs.param_values(4))}
 
 
